@@ -74,6 +74,32 @@ Print Assumptions C03_quantile_example.
    non-negative time is a stochastic matrix (entries >= 0, rows summing to 1) - so every cdf value
    1 - alpha P(t) e with alpha a probability vector and e a 0/1 vector lies in [0,1] - and the
    absorption probability transfers along any lumping through any sequence of epochs. *)
+(* ---- the density (TreeHeightDistribution.pdf, PINNED in gen/MarginalsGen.v and re-checked against the source on every run):
+   pdf(t) is the difference quotient of the distribution function over a window [x1, x1 + dx] that starts at x1 = max(t - dx/2, 0) >= 0
+   and contains t; it is non-negative whenever the distribution function is non-decreasing on [0, oo)
+   (C03_distributions_py_cdf_monotone below) ---- *)
+From Coq Require Import QArith Reals List.
+From PG Require Import base.Ops base.OpsR gen.MarginalsGen proofs.GenMarginalsEquiv.
+Theorem C03_distributions_py_pdf_is_difference_quotient :
+  forall (F : Q -> R) (q99 : Q) (ts : list Q) (dx : Q),
+    TreeHeightDistribution_pdf OpsR (map F) q99 ts (Some dx)
+    = map (fun t => ((F (pdf_x1 dx t + dx)%Q - F (pdf_x1 dx t)) / oofQ OpsR dx)%R) ts.
+Proof. exact gen_pdf_pointwise. Qed.
+Print Assumptions C03_distributions_py_pdf_is_difference_quotient.
+
+Theorem C03_distributions_py_pdf_window_contains_t :
+  forall dx t : Q, (0 < dx)%Q -> (0 <= t)%Q -> (0 <= pdf_x1 dx t)%Q /\ (pdf_x1 dx t <= t)%Q /\ (t <= pdf_x1 dx t + dx)%Q.
+Proof. intros dx t Hdx Ht. split; [apply pdf_x1_ge0 | apply pdf_window; assumption]. Qed.
+Print Assumptions C03_distributions_py_pdf_window_contains_t.
+
+Theorem C03_distributions_py_pdf_nonneg :
+  forall (F : Q -> R) (q99 : Q),
+    (forall a b : Q, (0 <= a)%Q -> (a <= b)%Q -> (F a <= F b)%R) ->
+  forall (ts : list Q) (dx : Q), (0 < dx)%Q -> (0 < oofQ OpsR dx)%R ->
+    Forall (fun x => (0 <= x)%R) (TreeHeightDistribution_pdf OpsR (map F) q99 ts (Some dx)).
+Proof. exact gen_pdf_nonneg. Qed.
+Print Assumptions C03_distributions_py_pdf_nonneg.
+
 From mathcomp Require Import all_ssreflect all_algebra.
 From Coq Require Import Reals.
 From PG Require Import proofs.ExpLaws analysis.Rstruct analysis.RSums analysis.MExp analysis.MExpLaws.
